@@ -512,8 +512,9 @@ func c03Oracle(buf []byte) func(d dop, ob decObs, dec *csproto.Decoder) {
 		}
 		if off := dec.Offset(); off < 0 || off > len(buf) {
 			fail("oracle", "cursor left [0, len(input)]", cs, "0.."+strconv.Itoa(len(buf)), strconv.Itoa(off), "dec-cursor")
+			return
 		}
-		if ob.class != "ok" {
+		if ob.class != "ok" || ob.before > len(buf) {
 			return
 		}
 		rest := buf[ob.before:]
@@ -1001,6 +1002,7 @@ func main() {
 	flag.Parse()
 	thorough = *tier == "thorough"
 	sink = hx.NewSink()
+	hx.InflightOpen(*out)
 	r := hx.NewRng(*seed).Fork(prop)
 	switch prop {
 	case "C01":
@@ -1035,5 +1037,6 @@ func main() {
 		os.Exit(2)
 	}
 	hx.Must(sink.Write(*out))
+	hx.InflightDone(*out)
 	_ = io.EOF
 }
